@@ -54,7 +54,7 @@ def gen_config(rng, k):
 
 def check_one(ctx, cfg, kind, rng, drv, seed):
     s = acc.Subject(ctx, cfg, random.Random(seed))
-    trig = rng.choice(sorted(COORD_OPS))
+    trig = rng.choice(sorted(COORD_OPS) + ["dataset"])
     pre = rng.choice([[], ["getTimes"], ["readMeta"], ["getCounts", "getTimes"]])
     h = pre + [trig, "readMeta", "dataset", "getTimes"]
     r = s.reader()
@@ -66,7 +66,14 @@ def check_one(ctx, cfg, kind, rng, drv, seed):
     meta = outs[len(pre) + 1][1]
     attrs = outs[len(pre) + 2][4]
     ds_times = list(outs[len(pre) + 2][1])
-    for name, got in (("reader.meta_data", meta), ("dataset attrs", attrs)):
+    views = [("reader.meta_data", meta), ("dataset attrs", attrs)]
+    if trig == "dataset":
+        # the dataset that itself triggered the coordinate computation
+        views.append(("attrs of the first dataset (the trigger)", outs[len(pre)][4]))
+        if list(outs[len(pre)][1]) != final:
+            ctx.violation("%s: times coordinate of the first dataset differs from get_times() afterwards" % cfg.name,
+                          payload, cls="dataset-times")
+    for name, got in views:
         if got is None:
             ctx.violation("%s: %s empty after %s" % (cfg.name, name, trig), payload, cls="meta-missing")
         elif got != want:
@@ -87,7 +94,7 @@ def check_one(ctx, cfg, kind, rng, drv, seed):
 def run(ctx):
     rng = ctx.rng
     drv = []
-    for k in range(ctx.n(50, 500)):
+    for k in range(ctx.n(120, 800)):
         cfg, kind = gen_config(rng, k)
         check_one(ctx, cfg, kind, rng, drv, seed=rng.randrange(1 << 30))
         if k < 3:
